@@ -112,6 +112,8 @@ class Sim:
         op = rec["op"]
         before = len(w.findings)
         target = None
+        if self.hooks is not None and hasattr(self.hooks, "before_step"):
+            self.hooks.before_step(self, rec)
         if op == "new":
             self.new_actor(rec["new"], rec["kind"])
             w.logev("new", rec["new"], rec["kind"])
